@@ -22,6 +22,26 @@
     are values gives the same result under either caller mode) — at every depth, since `runTmpl g (k+1)`
     calls `runTmpl g k`.  Param CONTENT blocks belong to the caller's template and are rendered in the
     caller's mode (they are commands of the caller's body).
+
+  Over the execution (second half of the file): `traceTmpl g fuel t ctx st` lists the print commands the
+  invocation of `t` reaches — through blocks, loops, switch defaults, {msg} bodies and translations, content
+  params and, at every depth, the callees — each with the template it stands in and the mode flag it runs
+  with (`PrintEv`); `executeTrace` is the same from `execute`.
+  * `prints_run_in_own_mode`: every event has `esc = escapeOf tmpl` — the mode of a print is that of the
+    template it is written in, however that template was reached; the prints of a caller after a call
+    returned are events of the same list (`local_or_called`).  A content block ({param k}…{/param},
+    {let $k}…{/let}) belongs to the template it is written in: its prints are events of the CALLER in the
+    caller's mode (`trParams` / `execParams`: `renderBlockOf (execBody g esc call body)` with the caller's
+    `esc`); the callee only sees the resulting string.
+  * `executed_prints_write` / `executed_prints_escaped` / `execute_prints_escaped`: the property's first
+    sentence for every executed print: effective mode not Off and no cancelling directive ⟹ exactly
+    `htmlEscape s` is appended, a `SafeHtmlEncoding` of `s`.
+  NOT covered: a {template} tag written INSIDE a template body (the parser accepts it, the registry does not
+  register it): Go walks its body in the current frame with the mode `the tag's autoescape attribute, else the
+  enclosing mode` and restores the enclosing mode afterwards (/repo a6ffafc); Model/Eval answers `error` for
+  such a node (the mode flag is a fixed parameter of the model's walk), so the statements here hold for it
+  vacuously.  The oracle check C03 `nested-template-switches-escaping-off` covers that construct on the real
+  code.
 -/
 import SoyVerif.Lemmas.ExecRefine
 import SoyVerif.Props.C03
@@ -182,6 +202,585 @@ theorem callee_runs_in_own_mode (g : GEnv) (k : Nat) (callee : Registry.Tmpl) (c
     runTmpl g (k + 1) callee cctx st =
       execBody g (escapeOf callee) (runTmpl g k) callee.body cctx (atNode st callee.pos) := rfl
 
+/-! ### the prints an execution reaches, with the mode they run in
+
+  `trCmd … c ctx st` lists, in order, the print commands that THE execution of `c` from `(ctx, st)` reaches —
+  every successor state is the one the model computes (`execCmd`, `evalIn`, `set`, `push`, `enter`, …); the
+  functions follow the clauses of `execCmd` one by one (as the `Safe…` predicates of Props/C07b do) and put an
+  event where the clause calls `evalPrint`: the template whose body is being walked, the mode flag of that
+  walk, the print node, and the state it starts from.  A {call} continues with the events of the callee
+  (`tcall`, for `runTmpl`: `traceTmpl` one level down). -/
+
+/-- a print command reached by the walk -/
+structure PrintEv where
+  tmpl : Registry.Tmpl      -- the template whose body is being walked
+  esc : Bool                -- the mode flag of that walk (`s.autoescape != AutoescapeOff`)
+  pos : Nat
+  arg : Expr
+  dirs : List Directive
+  ctx : Scope               -- where the print starts
+  st : St
+
+/-- what the print does: the run of the model at that point -/
+def PrintEv.run (g : GEnv) (ev : PrintEv) : R := evalPrint g ev.esc ev.pos ev.arg ev.dirs ev.ctx ev.st
+
+section
+variable (g : GEnv) (T : Registry.Tmpl) (esc : Bool) (call : Registry.Tmpl → Run)
+  (tcall : Registry.Tmpl → Scope → St → List PrintEv)
+
+/-- walkBlock -/
+def trWalk (tb : Scope → St → List PrintEv) (ctx : Scope) (st : St) : List PrintEv :=
+  tb (push ctx st).1 (push ctx st).2
+
+/-- renderBlock -/
+def trRender (tb : Scope → St → List PrintEv) (ctx : Scope) (st : St) : List PrintEv :=
+  trWalk tb ctx { st with out := [] }
+
+/-- `forLoop` -/
+def trLoop (body : Run) (tb : Scope → St → List PrintEv) (var : Bytes) (last : Int) :
+    List Value → Nat → Scope → St → List PrintEv
+  | [], _, _, _ => []
+  | item :: rest, i, ctx, st =>
+    match set (push ctx st).1 (push ctx st).2 (var ++ sLastIndexSuffix) (.int (Int64.ofInt last)) with
+    | none => []
+    | some st2 =>
+      match set (push ctx st).1 st2 var item with
+      | none => []
+      | some st3 =>
+        match set (push ctx st).1 st3 (var ++ sIndexSuffix) (.int (Int64.ofInt i)) with
+        | none => []
+        | some st4 =>
+          tb (push ctx st).1 st4 ++
+          (if (body (push ctx st).1 st4).cls = .ok then
+            match pop (body (push ctx st).1 st4).ctx with
+            | none => []
+            | some ctx2 => trLoop body tb var last rest (i + 1) ctx2 (body (push ctx st).1 st4).st
+          else [])
+
+/-- `pickDefault` -/
+def pickTr (values : List Expr) (tb : Scope → St → List PrintEv) (sd : Option (Scope → St → List PrintEv)) :
+    Option (Scope → St → List PrintEv) :=
+  if values.isEmpty && sd.isNone then some tb else sd
+
+mutual
+/-- `evalMsgParts` -/
+def trMParts (phs : List (Nat × Bytes × Run)) (tphs : List (Nat × Bytes × (Scope → St → List PrintEv))) (body : MsgParts) :
+    MParts → Scope → St → List PrintEv
+  | .nil, _, _ => []
+  | .cons (.raw t) rest, ctx, st => trMParts phs tphs body rest ctx (write st t)
+  | .cons (.ph name) rest, ctx, st =>
+    match pickPh name phs none with
+    | none => []
+    | some run =>
+      (match Spec.Eval.pickPhS name tphs none with
+       | some tr => tr ctx st
+       | none => []) ++
+      (if (run ctx st).cls = .ok then trMParts phs tphs body rest (run ctx st).ctx (run ctx st).st else [])
+  | .cons (.plural vn cases) rest, ctx, st =>
+    match findPlural body vn with
+    | none => []
+    | some ve =>
+      match evalIn g ve ctx st with
+      | some (.int i, st1) =>
+        match g.msgs with
+        | none => []
+        | some b =>
+          if b.pluralCase i.toInt < 0 then []
+          else
+            trMCases phs tphs body cases (b.pluralCase i.toInt).toNat ctx st1 ++
+            (if (evalMCases g phs body cases (b.pluralCase i.toInt).toNat ctx st1).cls = .ok then
+              trMParts phs tphs body rest (evalMCases g phs body cases (b.pluralCase i.toInt).toNat ctx st1).ctx
+                (evalMCases g phs body cases (b.pluralCase i.toInt).toNat ctx st1).st
+            else [])
+      | _ => []
+def trMCases (phs : List (Nat × Bytes × Run)) (tphs : List (Nat × Bytes × (Scope → St → List PrintEv))) (body : MsgParts) :
+    MCases → Nat → Scope → St → List PrintEv
+  | .nil, _, _, _ => []
+  | .cons parts _, 0, ctx, st => trMParts phs tphs body parts ctx st
+  | .cons _ rest, n + 1, ctx, st => trMCases phs tphs body rest n ctx st
+end
+
+mutual
+/-- `execCmd` -/
+def trCmd : Cmd → Scope → St → List PrintEv
+  | .print pos arg dirs, ctx, st => [⟨T, esc, pos, arg, dirs, ctx, st⟩]
+  | .msg _ id _ _ _ body, ctx, st =>
+    trWalk (fun ctx1 st1 =>
+      match g.msgs with
+      | none => trParts body ctx1 st1
+      | some b =>
+        match b.message id with
+        | none => trParts body ctx1 st1
+        | some parts => trMParts g (phAll g esc call body 0) (trPhAll body 0) body parts ctx1 st1) ctx st
+  | .log _ body, ctx, st => trRender (trBody body) ctx st
+  | .ifc _ conds, ctx, st => trConds conds ctx st
+  | .forc _ var list body ifEmpty, ctx, st =>
+    match evalIn g list ctx st with
+    | some (.list _ xs, st1) =>
+      if xs.isEmpty then
+        match ifEmpty with
+        | some b => trWalk (trBody b) ctx st1
+        | none => []
+      else trLoop (execBody g esc call body) (trBody body) var ((xs.length : Int) - 1) xs 0 ctx st1
+    | _ => []
+  | .switch _ value cases, ctx, st =>
+    match evalIn g value ctx st with
+    | none => []
+    | some (sv, st1) => trCases cases none sv ctx st1
+  -- evalCall: param content blocks are the CALLER's (its template, its mode); then the callee
+  | .call _ name allData data params, ctx, st =>
+    match Registry.lookup g.reg name with
+    | none => []
+    | some callee =>
+      match callData g allData data ctx st with
+      | none => []
+      | some (cd, st1) =>
+        trParams params cd ctx st1 ++
+        (if (execParams g esc call params cd ctx st1).cls = .ok then
+          match enter cd (execParams g esc call params cd ctx st1).st with
+          | none => []
+          | some (cctx, st2) => tcall callee cctx st2
+        else [])
+  | .letContent _ _ body, ctx, st => trRender (trBody body) ctx st
+  | .rawText .., _, _ => []
+  | .css .., _, _ => []
+  | .debugger .., _, _ => []
+  | .letValue .., _, _ => []
+  | .headerParam .., _, _ => []
+  | .namespace .., _, _ => []
+  | .template .., _, _ => []
+  | .soyDoc .., _, _ => []
+/-- `execBody` -/
+def trBody : Block → Scope → St → List PrintEv
+  | .mk p cmds, ctx, st => trCmds cmds ctx (atNode st p)
+/-- `execCmds` -/
+def trCmds : CmdList → Scope → St → List PrintEv
+  | .nil, _, _ => []
+  | .cons c rest, ctx, st =>
+    trCmd c ctx (atNode st (cmdPos c)) ++
+    (if (execCmd g esc call c ctx (atNode st (cmdPos c))).cls = .ok then
+      trCmds rest (execCmd g esc call c ctx (atNode st (cmdPos c))).ctx (execCmd g esc call c ctx (atNode st (cmdPos c))).st
+    else [])
+/-- `execConds` -/
+def trConds : CondList → Scope → St → List PrintEv
+  | .nil, _, _ => []
+  | .cons _ cond body rest, ctx, st =>
+    match cond with
+    | none => trWalk (trBody body) ctx st
+    | some c =>
+      match evalIn g c ctx st with
+      | none => []
+      | some (v, st1) => if v.truthy then trWalk (trBody body) ctx st1 else trConds rest ctx st1
+/-- `execCases` -/
+def trCases : CaseList → Option (Scope → St → List PrintEv) → Value → Scope → St → List PrintEv
+  | .nil, sd, _, ctx, st =>
+    match sd with
+    | some s => s ctx st
+    | none => []
+  | .cons _ values body rest, sd, sv, ctx, st =>
+    match matchCase g ctx sv values st with
+    | none => []
+    | some (true, st1) => trWalk (trBody body) ctx st1
+    | some (false, st1) => trCases rest (pickTr values (trWalk (trBody body)) sd) sv ctx st1
+/-- `execParams` -/
+def trParams : ParamList → Scope → Scope → St → List PrintEv
+  | .nil, _, _, _ => []
+  | .value _ key e rest, cd, ctx, st =>
+    match evalIn g e ctx st with
+    | none => []
+    | some (v, st1) =>
+      match set cd st1 key v with
+      | none => []
+      | some st2 => trParams rest cd ctx st2
+  | .content _ key body rest, cd, ctx, st =>
+    trRender (trBody body) ctx st ++
+    (if (renderBlockOf (execBody g esc call body) ctx st).1.cls = .ok then
+      match set cd (renderBlockOf (execBody g esc call body) ctx st).1.st key
+          (.str (renderBlockOf (execBody g esc call body) ctx st).2) with
+      | none => []
+      | some st2 => trParams rest cd (renderBlockOf (execBody g esc call body) ctx st).1.ctx st2
+    else [])
+/-- `walkMsgBody` -/
+def trParts : MsgParts → Scope → St → List PrintEv
+  | .nil, _, _ => []
+  | .text p t rest, ctx, st => trParts rest ctx (write (atNode st p) t)
+  | .ph _ _ body rest, ctx, st =>
+    trPh body ctx st ++
+    (if (execPh g esc call body ctx st).cls = .ok then
+      trParts rest (execPh g esc call body ctx st).ctx (execPh g esc call body ctx st).st
+    else [])
+  | .plural _ _ value cases _ dflt rest, ctx, st =>
+    match evalIn g value ctx st with
+    | some (.int i, st1) =>
+      trPl cases (trParts dflt) i.toInt ctx st1 ++
+      (if (walkPluralCases g esc call cases (walkMsgBody g esc call dflt) i.toInt ctx st1).cls = .ok then
+        trParts rest (walkPluralCases g esc call cases (walkMsgBody g esc call dflt) i.toInt ctx st1).ctx
+          (walkPluralCases g esc call cases (walkMsgBody g esc call dflt) i.toInt ctx st1).st
+      else [])
+    | _ => []
+/-- `walkPluralCases` -/
+def trPl : PluralCases → (Scope → St → List PrintEv) → Int → Scope → St → List PrintEv
+  | .nil, sd, _, ctx, st => sd ctx st
+  | .cons _ v _ body rest, sd, i, ctx, st =>
+    if i == v then trParts body ctx st else trPl rest sd i ctx st
+/-- `execPh` -/
+def trPh : MsgPhBody → Scope → St → List PrintEv
+  | .htmlTag .., _, _ => []
+  | .cmd c, ctx, st => trCmd c ctx (atNode st (cmdPos c))
+/-- `phAll` -/
+def trPhAll : MsgParts → Nat → List (Nat × Bytes × (Scope → St → List PrintEv))
+  | .nil, _ => []
+  | .text _ _ rest, d => trPhAll rest d
+  | .ph _ name body rest, d => (d, name, trPh body) :: trPhAll rest d
+  | .plural _ _ _ cases _ dflt rest, d => trPhAllCases cases (d + 3) ++ trPhAll dflt (d + 2) ++ trPhAll rest d
+def trPhAllCases : PluralCases → Nat → List (Nat × Bytes × (Scope → St → List PrintEv))
+  | .nil, _ => []
+  | .cons _ _ _ body rest, d => trPhAll body d ++ trPhAllCases rest d
+end
+end
+
+/-- the prints reached by a template invocation (`runTmpl`): the body's, walked as `template_mode` says — as
+    template `t`, in `t`'s own mode — and, through its calls, those of the callees one level down -/
+def traceTmpl (g : GEnv) : Nat → Registry.Tmpl → Scope → St → List PrintEv
+  | 0, _, _, _ => []
+  | k + 1, t, ctx, st => trBody g t (escapeOf t) (runTmpl g k) (traceTmpl g k) t.body ctx (atNode st t.pos)
+
+/-- the prints reached by `execute` -/
+def executeTrace (g : GEnv) (name : Bytes) (data : Frame) (fuel : Nat) : List PrintEv :=
+  match Registry.lookup g.reg name with
+  | none => []
+  | some t =>
+    match enter (newScope data true { heap := [], out := [], next := freshBase g data, foreign := 0 }).1
+        (newScope data true { heap := [], out := [], next := freshBase g data, foreign := 0 }).2 with
+    | none => []
+    | some (ctx, st2) => traceTmpl g fuel t ctx st2
+
+/-! ### a property of every event -/
+
+section
+variable (Q : PrintEv → Prop)
+
+def AllQ (l : List PrintEv) : Prop := ∀ ev ∈ l, Q ev
+def AllTr (tb : Scope → St → List PrintEv) : Prop := ∀ ctx st, AllQ Q (tb ctx st)
+
+theorem AllQ.nil : AllQ Q [] := fun _ h => by cases h
+
+theorem AllQ.append {a b : List PrintEv} (ha : AllQ Q a) (hb : AllQ Q b) : AllQ Q (a ++ b) := by
+  intro ev hev
+  rcases List.mem_append.mp hev with h | h
+  · exact ha ev h
+  · exact hb ev h
+
+local macro "tr_split" : tactic =>
+  `(tactic| repeat' (first | exact AllQ.nil _ | apply AllQ.append | split))
+
+theorem trWalk_all {tb : Scope → St → List PrintEv} (h : AllTr Q tb) : AllTr Q (trWalk tb) := fun _ _ => h _ _
+theorem trRender_all {tb : Scope → St → List PrintEv} (h : AllTr Q tb) : AllTr Q (trRender tb) := fun _ _ => h _ _
+
+theorem trLoop_all (body : Run) (tb : Scope → St → List PrintEv) (var : Bytes) (last : Int) (h : AllTr Q tb) :
+    ∀ (xs : List Value) (i : Nat) (ctx : Scope) (st : St), AllQ Q (trLoop body tb var last xs i ctx st)
+  | [], _, _, _ => by rw [trLoop]; exact AllQ.nil Q
+  | x :: r, i, ctx, st => by
+    rw [trLoop]
+    generalize (push ctx st).1 = c1
+    generalize (push ctx st).2 = s1
+    cases Eval.set c1 s1 (var ++ sLastIndexSuffix) (.int (Int64.ofInt last)) with
+    | none => exact AllQ.nil Q
+    | some st2 =>
+      simp only
+      cases Eval.set c1 st2 var x with
+      | none => exact AllQ.nil Q
+      | some st3 =>
+        simp only
+        cases Eval.set c1 st3 (var ++ sIndexSuffix) (.int (Int64.ofInt i)) with
+        | none => exact AllQ.nil Q
+        | some st4 =>
+          simp only
+          refine AllQ.append Q (h _ _) ?_
+          split
+          · cases pop (body c1 st4).ctx with
+            | none => exact AllQ.nil Q
+            | some ctx2 => exact trLoop_all body tb var last h r _ _ _
+          · exact AllQ.nil Q
+
+theorem pickTr_all {values : List Expr} {tb : Scope → St → List PrintEv} {sd : Option (Scope → St → List PrintEv)}
+    (h : AllTr Q tb) (hs : ∀ s, sd = some s → AllTr Q s) : ∀ s, pickTr values tb sd = some s → AllTr Q s := by
+  intro s hp
+  unfold pickTr at hp
+  split at hp
+  · cases hp; exact h
+  · exact hs s hp
+
+theorem pickPhS_all {α : Type} (P : α → Prop) (name : Bytes) : ∀ (l : List (Nat × Bytes × α)) (best : Option (Nat × α)),
+    (∀ e ∈ l, P e.2.2) → (∀ b, best = some b → P b.2) → ∀ a, Spec.Eval.pickPhS name l best = some a → P a
+  | [], best, _, hb, a, h => by
+    simp only [Spec.Eval.pickPhS, Option.map_eq_some_iff] at h
+    obtain ⟨b, hb', rfl⟩ := h
+    exact hb b hb'
+  | (d, n, f) :: r, best, hl, hb, a, h => by
+    have hr : ∀ e ∈ r, P e.2.2 := fun e he => hl e (List.mem_cons_of_mem _ he)
+    have hf : P f := hl (d, n, f) List.mem_cons_self
+    have hnew : ∀ b, some (d, f) = some b → P b.2 := by intro b hb'; cases hb'; exact hf
+    unfold Spec.Eval.pickPhS at h
+    split at h
+    · split at h
+      · split at h
+        · exact pickPhS_all P name r _ hr hnew a h
+        · exact pickPhS_all P name r _ hr hb a h
+      · exact pickPhS_all P name r _ hr hnew a h
+    · exact pickPhS_all P name r _ hr hb a h
+
+section
+variable (g : GEnv) (phs : List (Nat × Bytes × Run)) (tphs : List (Nat × Bytes × (Scope → St → List PrintEv)))
+  (body : MsgParts) (ht : ∀ e ∈ tphs, AllTr Q e.2.2)
+include ht
+
+mutual
+theorem trMParts_all : ∀ (ps : MParts) (ctx : Scope) (st : St), AllQ Q (trMParts g phs tphs body ps ctx st)
+  | .nil, _, _ => by rw [trMParts]; exact AllQ.nil Q
+  | .cons (.raw t) rest, ctx, st => by rw [trMParts]; exact trMParts_all rest _ _
+  | .cons (.ph name) rest, ctx, st => by
+    rw [trMParts]
+    tr_split
+    · rename_i tr htr
+      exact pickPhS_all (AllTr Q) name tphs none ht (by intro b hb; cases hb) tr htr ctx st
+    · exact trMParts_all rest _ _
+  | .cons (.plural vn cases) rest, ctx, st => by
+    rw [trMParts]
+    tr_split
+    · exact trMCases_all cases _ _ _
+    · exact trMParts_all rest _ _
+theorem trMCases_all : ∀ (cs : MCases) (n : Nat) (ctx : Scope) (st : St), AllQ Q (trMCases g phs tphs body cs n ctx st)
+  | .nil, _, _, _ => by rw [trMCases]; exact AllQ.nil Q
+  | .cons parts _, 0, ctx, st => by rw [trMCases]; exact trMParts_all parts _ _
+  | .cons _ rest, n + 1, ctx, st => by rw [trMCases]; exact trMCases_all rest n _ _
+end
+end
+
+section
+variable (g : GEnv) (T : Registry.Tmpl) (esc : Bool) (call : Registry.Tmpl → Run)
+  (tcall : Registry.Tmpl → Scope → St → List PrintEv)
+  (hq : ∀ pos arg dirs ctx st, Q ⟨T, esc, pos, arg, dirs, ctx, st⟩)
+  (hcall : ∀ t, t ∈ g.reg → AllTr Q (tcall t))
+include hq hcall
+
+mutual
+theorem trCmd_all : ∀ (c : Cmd) (ctx : Scope) (st : St), AllQ Q (trCmd g T esc call tcall c ctx st)
+  | .print pos arg dirs, ctx, st => by
+    rw [trCmd]; intro ev hev
+    simp only [List.mem_singleton] at hev; subst hev; exact hq ..
+  | .msg _ id _ _ _ body, ctx, st => by
+    rw [trCmd]
+    refine trWalk_all Q (fun ctx1 st1 => ?_) ctx st
+    tr_split
+    · exact trParts_all body _ _
+    · exact trParts_all body _ _
+    · exact trMParts_all Q g _ _ body (trPhAll_all body 0) _ _ _
+  | .log _ body, ctx, st => by rw [trCmd]; exact trRender_all Q (fun c s => trBody_all body c s) _ _
+  | .ifc _ conds, ctx, st => by rw [trCmd]; exact trConds_all conds _ _
+  | .forc _ var list body ifEmpty, ctx, st => by
+    rw [trCmd]
+    tr_split
+    · rename_i b; exact trWalk_all Q (fun c s => trBody_all b c s) _ _
+    · exact trLoop_all Q _ _ _ _ (fun c s => trBody_all body c s) _ _ _ _
+  | .switch _ value cases, ctx, st => by
+    rw [trCmd]
+    tr_split
+    exact trCases_all cases none (by intro s hs; cases hs) _ _ _
+  | .call _ name allData data params, ctx, st => by
+    rw [trCmd]
+    split
+    · exact AllQ.nil Q
+    · rename_i callee hl
+      have hm : callee ∈ g.reg := List.mem_of_find?_eq_some hl
+      tr_split
+      · exact trParams_all params _ _ _
+      · exact hcall callee hm _ _
+  | .letContent _ _ body, ctx, st => by rw [trCmd]; exact trRender_all Q (fun c s => trBody_all body c s) _ _
+  | .rawText .., _, _ => by rw [trCmd]; exact AllQ.nil Q
+  | .css .., _, _ => by rw [trCmd]; exact AllQ.nil Q
+  | .debugger .., _, _ => by rw [trCmd]; exact AllQ.nil Q
+  | .letValue .., _, _ => by rw [trCmd]; exact AllQ.nil Q
+  | .headerParam .., _, _ => by rw [trCmd]; exact AllQ.nil Q
+  | .namespace .., _, _ => by rw [trCmd]; exact AllQ.nil Q
+  | .template .., _, _ => by rw [trCmd]; exact AllQ.nil Q
+  | .soyDoc .., _, _ => by rw [trCmd]; exact AllQ.nil Q
+theorem trBody_all : ∀ (b : Block) (ctx : Scope) (st : St), AllQ Q (trBody g T esc call tcall b ctx st)
+  | .mk p cmds, ctx, st => by rw [trBody]; exact trCmds_all cmds _ _
+theorem trCmds_all : ∀ (cs : CmdList) (ctx : Scope) (st : St), AllQ Q (trCmds g T esc call tcall cs ctx st)
+  | .nil, _, _ => by rw [trCmds]; exact AllQ.nil Q
+  | .cons c rest, ctx, st => by
+    rw [trCmds]
+    tr_split
+    · exact trCmd_all c _ _
+    · exact trCmds_all rest _ _
+theorem trConds_all : ∀ (cs : CondList) (ctx : Scope) (st : St), AllQ Q (trConds g T esc call tcall cs ctx st)
+  | .nil, _, _ => by rw [trConds]; exact AllQ.nil Q
+  | .cons _ cond body rest, ctx, st => by
+    unfold trConds
+    tr_split
+    · exact trWalk_all Q (fun c s => trBody_all body c s) _ _
+    · exact trWalk_all Q (fun c s => trBody_all body c s) _ _
+    · exact trConds_all rest _ _
+theorem trCases_all : ∀ (cs : CaseList) (sd : Option (Scope → St → List PrintEv)), (∀ s, sd = some s → AllTr Q s) →
+    ∀ (sv : Value) (ctx : Scope) (st : St), AllQ Q (trCases g T esc call tcall cs sd sv ctx st)
+  | .nil, sd, hs, _, ctx, st => by
+    unfold trCases
+    split
+    · rename_i s; exact hs s rfl _ _
+    · exact AllQ.nil Q
+  | .cons _ values body rest, sd, hs, sv, ctx, st => by
+    unfold trCases
+    tr_split
+    · exact trWalk_all Q (fun c s => trBody_all body c s) _ _
+    · exact trCases_all rest _ (pickTr_all Q (trWalk_all Q (fun c s => trBody_all body c s)) hs) _ _ _
+theorem trParams_all : ∀ (ps : ParamList) (cd ctx : Scope) (st : St), AllQ Q (trParams g T esc call tcall ps cd ctx st)
+  | .nil, _, _, _ => by rw [trParams]; exact AllQ.nil Q
+  | .value _ key e rest, cd, ctx, st => by
+    rw [trParams]
+    tr_split
+    exact trParams_all rest _ _ _
+  | .content _ key body rest, cd, ctx, st => by
+    rw [trParams]
+    tr_split
+    · exact trRender_all Q (fun c s => trBody_all body c s) _ _
+    · exact trParams_all rest _ _ _
+theorem trParts_all : ∀ (ps : MsgParts) (ctx : Scope) (st : St), AllQ Q (trParts g T esc call tcall ps ctx st)
+  | .nil, _, _ => by rw [trParts]; exact AllQ.nil Q
+  | .text p t rest, ctx, st => by rw [trParts]; exact trParts_all rest _ _
+  | .ph _ _ body rest, ctx, st => by
+    rw [trParts]
+    tr_split
+    · exact trPh_all body _ _
+    · exact trParts_all rest _ _
+  | .plural _ _ value cases _ dflt rest, ctx, st => by
+    rw [trParts]
+    tr_split
+    · exact trPl_all cases _ (fun c s => trParts_all dflt c s) _ _ _
+    · exact trParts_all rest _ _
+theorem trPl_all : ∀ (cs : PluralCases) (sd : Scope → St → List PrintEv), AllTr Q sd → ∀ (i : Int) (ctx : Scope) (st : St),
+    AllQ Q (trPl g T esc call tcall cs sd i ctx st)
+  | .nil, sd, hs, _, ctx, st => by rw [trPl]; exact hs _ _
+  | .cons _ v _ body rest, sd, hs, i, ctx, st => by
+    rw [trPl]
+    tr_split
+    · exact trParts_all body _ _
+    · exact trPl_all rest sd hs _ _ _
+theorem trPh_all : ∀ (b : MsgPhBody) (ctx : Scope) (st : St), AllQ Q (trPh g T esc call tcall b ctx st)
+  | .htmlTag .., _, _ => by rw [trPh]; exact AllQ.nil Q
+  | .cmd c, ctx, st => by rw [trPh]; exact trCmd_all c _ _
+theorem trPhAll_all : ∀ (ps : MsgParts) (d : Nat), ∀ e ∈ trPhAll g T esc call tcall ps d, AllTr Q e.2.2
+  | .nil, _, e, he => by rw [trPhAll] at he; cases he
+  | .text _ _ rest, d, e, he => by rw [trPhAll] at he; exact trPhAll_all rest d e he
+  | .ph _ name body rest, d, e, he => by
+    rw [trPhAll] at he
+    rcases List.mem_cons.mp he with rfl | h
+    · exact fun c s => trPh_all body c s
+    · exact trPhAll_all rest d e h
+  | .plural _ _ _ cases _ dflt rest, d, e, he => by
+    rw [trPhAll] at he
+    rcases List.mem_append.mp he with h | h
+    · rcases List.mem_append.mp h with h | h
+      · exact trPhAllCases_all cases _ e h
+      · exact trPhAll_all dflt _ e h
+    · exact trPhAll_all rest d e h
+theorem trPhAllCases_all : ∀ (cs : PluralCases) (d : Nat), ∀ e ∈ trPhAllCases g T esc call tcall cs d, AllTr Q e.2.2
+  | .nil, _, e, he => by rw [trPhAllCases] at he; cases he
+  | .cons _ _ _ body rest, d, e, he => by
+    rw [trPhAllCases] at he
+    rcases List.mem_append.mp he with h | h
+    · exact trPhAll_all body d e h
+    · exact trPhAllCases_all rest d e h
+end
+end
+end
+
+/-! ### the statements over the execution -/
+
+/-- an event is a print command of the walk: executing it is `PrintEv.run` -/
+theorem PrintEv.run_eq (g : GEnv) (call : Registry.Tmpl → Run) (ev : PrintEv) :
+    execCmd g ev.esc call (.print ev.pos ev.arg ev.dirs) ev.ctx ev.st = ev.run g := by
+  rw [execCmd]; rfl
+
+/-- `template_mode` over the execution: whichever way template `t` was entered — by `execute`, or by a {call}
+    of a caller in any mode, at any depth — every print the invocation reaches runs with the mode flag of
+    the template IT stands in (`escapeOf`: that template's autoescape attribute, else its file's namespace
+    attribute, else on), and that template is `t` itself or a registered template reached by calls.  The
+    caller's mode does not reach the callee, and the prints of the caller after a call returns have the
+    caller's mode again (they are events of the same list, under the same statement). -/
+theorem prints_run_in_own_mode (g : GEnv) : ∀ (fuel : Nat) (t : Registry.Tmpl) (ctx : Scope) (st : St),
+    ∀ ev ∈ traceTmpl g fuel t ctx st, ev.esc = escapeOf ev.tmpl ∧ (ev.tmpl = t ∨ ev.tmpl ∈ g.reg)
+  | 0, _, _, _ => by intro ev hev; rw [traceTmpl] at hev; cases hev
+  | k + 1, t, ctx, st => by
+    rw [traceTmpl]
+    exact trBody_all (fun ev => ev.esc = escapeOf ev.tmpl ∧ (ev.tmpl = t ∨ ev.tmpl ∈ g.reg)) g t (escapeOf t)
+      (runTmpl g k) (traceTmpl g k) (fun _ _ _ _ _ => ⟨rfl, Or.inl rfl⟩)
+      (fun t' ht' ctx' st' ev hev => by
+        obtain ⟨h1, h2⟩ := prints_run_in_own_mode g k t' ctx' st' ev hev
+        exact ⟨h1, Or.inr (h2.elim (fun h => h ▸ ht') id)⟩)
+      t.body _ _
+
+/-- inside one walk: an event is a print of THIS template in THIS mode, or comes from a callee — whatever
+    came before it (a call that returned, a content block, a loop) -/
+theorem local_or_called (g : GEnv) (T : Registry.Tmpl) (esc : Bool) (call : Registry.Tmpl → Run)
+    (tcall : Registry.Tmpl → Scope → St → List PrintEv) (b : Block) (ctx : Scope) (st : St) :
+    ∀ ev ∈ trBody g T esc call tcall b ctx st,
+      (ev.tmpl = T ∧ ev.esc = esc) ∨ ∃ t ∈ g.reg, ∃ ctx' st', ev ∈ tcall t ctx' st' :=
+  trBody_all _ g T esc call tcall (fun _ _ _ _ _ => Or.inl ⟨rfl, rfl⟩)
+    (fun t ht ctx' st' ev hev => Or.inr ⟨t, ht, ctx', st', hev⟩) b ctx st
+
+/-- what every executed print writes: htmlEscape of the final text of its directive chain iff the effective
+    mode of the template it stands in is not Off and no directive (obligatory ones included) cancels -/
+theorem executed_prints_write (g : GEnv) (fuel : Nat) (t : Registry.Tmpl) (ctx : Scope) (st : St) :
+    ∀ ev ∈ traceTmpl g fuel t ctx st, (ev.run g).cls = .ok →
+      ∃ s, bufBytes (ev.run g).st.out = bufBytes ev.st.out ++
+        (if (Directives.effectiveMode (toMode ev.tmpl.nsAutoescape) (toMode ev.tmpl.autoescape) != .off) &&
+            noCancelE g.tbl (ev.dirs ++ obligDirs ev.pos g.oblig) then htmlEscape s else s) := by
+  intro ev hev hok
+  have hm := (prints_run_in_own_mode g fuel t ctx st ev hev).1
+  rw [← escapeOf_effectiveMode, ← hm]
+  exact print_writes g ev.esc ev.pos ev.arg ev.dirs ev.ctx ev.st hok
+
+/-- C03, first sentence, over the execution: for every registry, template, scope and state, at every call
+    depth — every print command the execution reaches that stands in a template whose effective mode is
+    on / contextual (not Off) and whose directive list, obligatory directives included, has no cancelling
+    directive appends exactly `htmlEscape s` for the final text `s` of its chain: none of < > " ' raw, every
+    & starts a character reference, and it decodes back to `s` -/
+theorem executed_prints_escaped (g : GEnv) (fuel : Nat) (t : Registry.Tmpl) (ctx : Scope) (st : St) :
+    ∀ ev ∈ traceTmpl g fuel t ctx st,
+      Directives.effectiveMode (toMode ev.tmpl.nsAutoescape) (toMode ev.tmpl.autoescape) ≠ .off →
+      noCancelE g.tbl (ev.dirs ++ obligDirs ev.pos g.oblig) = true →
+      (ev.run g).cls = .ok →
+      ∃ s out, bufBytes (ev.run g).st.out = bufBytes ev.st.out ++ out ∧ out = htmlEscape s ∧
+        C03.SafeHtmlEncoding out s := by
+  intro ev hev hmode hnc hok
+  obtain ⟨s, h⟩ := executed_prints_write g fuel t ctx st ev hev hok
+  have hb : (Directives.effectiveMode (toMode ev.tmpl.nsAutoescape) (toMode ev.tmpl.autoescape) != .off) = true := by
+    simpa using hmode
+  rw [hb, hnc] at h
+  exact ⟨s, htmlEscape s, by simpa using h, rfl, C03.htmlEscape_safe s⟩
+
+/-- … and from `execute`: every print reached by `Renderer.Execute` of any entry template on any data -/
+theorem execute_prints_escaped (g : GEnv) (name : Bytes) (data : Frame) (fuel : Nat) :
+    ∀ ev ∈ executeTrace g name data fuel,
+      ev.esc = escapeOf ev.tmpl ∧ ev.tmpl ∈ g.reg ∧
+      (Directives.effectiveMode (toMode ev.tmpl.nsAutoescape) (toMode ev.tmpl.autoescape) ≠ .off →
+       noCancelE g.tbl (ev.dirs ++ obligDirs ev.pos g.oblig) = true →
+       (ev.run g).cls = .ok →
+       ∃ s out, bufBytes (ev.run g).st.out = bufBytes ev.st.out ++ out ∧ out = htmlEscape s ∧
+         C03.SafeHtmlEncoding out s) := by
+  intro ev hev
+  unfold executeTrace at hev
+  split at hev
+  · cases hev
+  · rename_i t hl
+    have ht : t ∈ g.reg := List.mem_of_find?_eq_some hl
+    split at hev
+    · cases hev
+    · rename_i ctx st2 _
+      obtain ⟨h1, h2⟩ := prints_run_in_own_mode g fuel t ctx st2 ev hev
+      exact ⟨h1, h2.elim (fun h => h ▸ ht) id, executed_prints_escaped g fuel t ctx st2 ev hev⟩
+
 /-! ### non-vacuity
 
   template .t (autoescape on) prints `$x` and calls .c; template .c has autoescape="false" and prints `$x`.
@@ -200,5 +799,50 @@ def g0 : GEnv := { reg := [tT, tC], globals := [], ij := none, msgs := none, tbl
 
 example : escapeOf tT = true ∧ escapeOf tC = false := by decide
 example : (execute g0 [116] [([120], .str [60])] 5).chunks.flatten = [38, 108, 116, 59, 60] := by decide
+
+/-! ### non-vacuity of the trace statements
+
+  file 1, `{namespace n autoescape="false"}`: template a with autoescape="true":
+      {$x}{call b data="all"}{param k}{$x}{/param}{/call}{$x}
+  file 2, `{namespace m}` (on): template b with autoescape="false":  {$x}{$k}{call c data="all"/}
+  file 1 again: template c, no attribute (its namespace says false):  {$x}{call d data="all"/}
+  file 2 again: template d, no attribute (on):  {$x}
+  With x = "<": a escapes; the content of {param k} is a's block (a's mode: escaped); b prints `$x` and `$k`
+  raw; c (mode off by its namespace) raw; d escapes again; back in a after the call: escaped. -/
+
+def kx : Bytes := [120]
+def pr (p : Nat) (k : Bytes) : Cmd := .print p (.dataRef p k .nil) []
+
+def tA : Registry.Tmpl :=
+  { name := [97], params := [],
+    body := .mk 1 (.cons (pr 2 kx) (.cons (.call 3 [98] true none (.content 4 [107] (.mk 5 (.cons (pr 6 kx) .nil)) .nil))
+      (.cons (pr 7 kx) .nil))),
+    autoescape := .on, nsName := [110], nsAutoescape := .off, pos := 0, file := [49], text := [] }
+def tB : Registry.Tmpl :=
+  { name := [98], params := [],
+    body := .mk 11 (.cons (pr 12 kx) (.cons (pr 13 [107]) (.cons (.call 14 [99] true none .nil) .nil))),
+    autoescape := .off, nsName := [109], nsAutoescape := .unspecified, pos := 10, file := [50], text := [] }
+def tC2 : Registry.Tmpl :=
+  { name := [99], params := [], body := .mk 21 (.cons (pr 22 kx) (.cons (.call 23 [100] true none .nil) .nil)),
+    autoescape := .unspecified, nsName := [110], nsAutoescape := .off, pos := 20, file := [49], text := [] }
+def tD : Registry.Tmpl :=
+  { name := [100], params := [], body := .mk 31 (.cons (pr 32 kx) .nil),
+    autoescape := .unspecified, nsName := [109], nsAutoescape := .unspecified, pos := 30, file := [50], text := [] }
+
+def g1 : GEnv := { reg := [tA, tB, tC2, tD], globals := [], ij := none, msgs := none, tbl := [], oblig := [] }
+
+/-- the prints reached, in order: (template, mode flag, print node) -/
+example : (executeTrace g1 [97] [(kx, .str [60])] 6).map (fun ev => (ev.tmpl.name, ev.esc, ev.pos)) =
+    [([97], true, 2), ([97], true, 6), ([98], false, 12), ([98], false, 13), ([99], false, 22), ([100], true, 32),
+     ([97], true, 7)] := by decide +kernel
+/-- … and what the execution wrote: &lt; (a) · < (b, `$x`) · &lt; (b, `$k`: a's escaped content, raw) · < (c) ·
+    &lt; (d) · &lt; (a again) -/
+example : (execute g1 [97] [(kx, .str [60])] 6).chunks.flatten =
+    [38, 108, 116, 59, 60, 38, 108, 116, 59, 60, 38, 108, 116, 59, 38, 108, 116, 59] := by decide +kernel
+/-- the other way round: entered at b (mode off), the callee d of the callee c is escaped -/
+example : (executeTrace g1 [98] [(kx, .str [60]), ([107], .str [62])] 6).map (fun ev => (ev.tmpl.name, ev.esc)) =
+    [([98], false), ([98], false), ([99], false), ([100], true)] := by decide +kernel
+example : (execute g1 [98] [(kx, .str [60]), ([107], .str [62])] 6).chunks.flatten = [60, 62, 60, 38, 108, 116, 59] := by
+  decide +kernel
 
 end SoyVerif.Props.C03b
